@@ -37,7 +37,7 @@ TMP_BASE = os.environ.get('VERIF_TMP', os.path.join(os.path.dirname(os.path.dirn
 PLACEHOLDER = '<TMP>'
 ROOT_PLACEHOLDER = '<TMPROOT>'
 SEEDS = [0, 1, 2, 12345, 4294967295]
-TIMEOUT = 120
+TIMEOUT = 900
 MAX_CEX = 5
 MAIN_FILE = 'main.asm'
 THREADS = 8
